@@ -45,8 +45,10 @@ def pair_report(ctx, v1, v2, options):
 def make_items(ctx, only=None):
     items = {}
     ps = pair_status(ctx)
-    for i in range(NWL[ctx.tier]):
-        name = 'wl%03d' % i
+    # the hand-made workloads wl000-wl003 stand in for generated ones (as they always did); later ones (wlx..) come on top,
+    # so that no generated workload is lost
+    for i in list(range(NWL[ctx.tier])) + [1004, 1005, 1007]:
+        name = 'wl%03d' % i if i < 1000 else 'wlx%02d' % (i - 1000)
         if only and name != only:
             continue
         rng = C.Prng(C.mix_seed(ctx.seed, 30, 7, i))
@@ -66,15 +68,15 @@ def make_items(ctx, only=None):
             wl = {'files': [{'path': 'libtiny.so', 'v1': 'tiny_v0', 'v2': 'tiny_v0'}, {'path': 'tool', 'v1': 'tool_v0_exec', 'v2': None},
                             {'path': 'libmathx.so', 'v1': None, 'v2': 'mathx_v1'}],
                   'format': 'tar', 'abignore': 'none', 'options': ['--no-default-suppression', '--no-added-binaries']}   # removed ET_EXEC executable, an added library, archive
-        if i == 4:
+        if i == 1004:
             wl = {'files': [{'path': 'lib/libshapes.so', 'v1': 'shapes_v1', 'v2': 'shapes_v2'}, {'path': 'lib/libcxx.so', 'v1': 'cxx_v1', 'v2': 'cxx_v1'},
                             {'path': 'bin/tool', 'v1': 'tool_v0', 'v2': 'tool_v0'}],
                   'format': 'dir', 'abignore': 'none', 'options': ['--no-default-suppression'], 'splitdbg': True}      # split debug info: a change only the debug info shows
-        if i == 5:
+        if i == 1005:
             wl = {'files': [{'path': 'libfnptr.so', 'v1': 'fnptr_v0', 'v2': 'fnptr_v1'}, {'path': 'libmathx.so', 'v1': 'mathx_v0', 'v2': None},
                             {'path': 'libtiny.so', 'v1': 'tiny_v0_nodbg', 'v2': 'tiny_v1'}],
                   'format': 'tar.gz', 'abignore': 'none', 'options': ['--no-default-suppression'], 'splitdbg': True}   # split debug info in archives, a removed binary, one binary without any
-        if i == 7:
+        if i == 1007:
             wl = {'files': [{'path': 'usr/lib64/libalias.so', 'v1': 'alias_v0', 'v2': 'alias_v1'}, {'path': 'usr/lib64/libmathx.so', 'v1': 'mathx_v0', 'v2': None},
                             {'path': 'usr/lib64/libtiny.so', 'v1': 'tiny_v0', 'v2': 'tiny_v1'}, {'path': 'usr/lib64/libcxx.so', 'v1': None, 'v2': 'cxx_v2'}],
                   'format': 'deb' if K.have_deb() else 'tar.gz', 'abignore': 'first', 'options': ['--no-default-suppression'], 'splitdbg': True}   # Debian packages with -dbg packages
